@@ -11,7 +11,7 @@
 From Coq Require Import List NArith ZArith Bool.
 From NV Require Import Syntax.Token Syntax.Ast Syntax.StmtAst Syntax.Parser Syntax.Grammar
      Syntax.ParserProofs Syntax.GrammarProofs Syntax.OpTableCheck Syntax.LexTable Syntax.FuelProofs
-     Syntax.SoundProofs Syntax.SoundSeq Syntax.TypeGrammar Syntax.TypeProofs Syntax.TypeSound Syntax.StmtGrammar Syntax.StmtProofs Syntax.StmtSound Syntax.SoundFull Syntax.Lexer Syntax.LexNumber Syntax.LexIdent Gen.OpTable.
+     Syntax.SoundProofs Syntax.SoundSeq Syntax.TypeGrammar Syntax.TypeProofs Syntax.TypeSound Syntax.StmtGrammar Syntax.StmtProofs Syntax.StmtSound Syntax.SoundFull Syntax.StmtFlat Syntax.Lexer Syntax.LexNumber Syntax.LexIdent Gen.OpTable.
 Import ListNotations.
 
 (* Every well-formed derivation tree, of any size and nesting depth, is read back as exactly
@@ -229,6 +229,18 @@ Theorem C10_full_partial : forall ts ss,
     /\ ts = pr_program_semi items trailing /\ ss = map desugar_item items.
 Proof. exact parse_sound_full. Qed.
 Print Assumptions C10_full_partial.
+
+(* ... and conversely every such one-line program is accepted with that meaning: on token lists without
+   line-break tokens and trailing commas (and tp_plain) acceptance by `parse` is characterised exactly,
+   for every statement form. *)
+Theorem C10_characterised_full : forall ts ss,
+  core ts = true -> tp_plain ts = true ->
+  (parse ts = Ok ss [] <->
+   (ts = [] /\ ss = []) \/
+   exists items trailing, items <> [] /\ Forall (fun i => wf_item i = true) items
+     /\ ts = pr_program_semi items trailing /\ ss = map desugar_item items).
+Proof. exact parse_characterised_full. Qed.
+Print Assumptions C10_characterised_full.
 
 (* ---- non-vacuity *)
 Definition id_ (c : N) : sx := SIdent [c].
